@@ -84,6 +84,7 @@ pub struct Monitors {
     // ---- handshake (C17 R1) ----
     pub synack_times: Vec<u64>,
     pub established_seen: bool,
+    pub initiator_pkt_seen: bool,
     pub first_data_ever: bool,
 }
 
@@ -125,6 +126,7 @@ impl Monitors {
             fin_acked_by_peer: false,
             synack_times: vec![],
             established_seen: !cfg.incoming,
+            initiator_pkt_seen: false,
             first_data_ever: false,
         }
     }
@@ -170,7 +172,7 @@ impl Monitors {
         out.push(self.unacked_inorder_bytes as u64);
         out.push(self.last_adv_wnd as u64);
         out.push(self.fin_from_peer_seen as u64);
-        out.push(self.dup_acks as u64 | (self.sack_dups as u64) << 8 | (self.peer_used_sack as u64) << 16 | (self.reset_seen as u64) << 17 | (self.fin_acked_by_peer as u64) << 18 | (self.established_seen as u64) << 19);
+        out.push(self.dup_acks as u64 | (self.sack_dups as u64) << 8 | (self.peer_used_sack as u64) << 16 | (self.reset_seen as u64) << 17 | (self.fin_acked_by_peer as u64) << 18 | (self.established_seen as u64) << 19 | (self.initiator_pkt_seen as u64) << 20);
         out.push(self.last_peer_ack.map(|x| x.0 as u64 | (x.1 as u64) << 16).unwrap_or(u64::MAX));
         out.push(self.cum_acked_bytes);
         match self.last_rto_fire {
@@ -975,10 +977,25 @@ impl Monitors {
         let state_after = rec.obs_after.as_ref().map(|o| o.state).unwrap_or("gone");
         let state_before = rec.obs_before.as_ref().map(|o| o.state).unwrap_or("gone");
         // R1: the accepted connection's SYN-ACK
-        if w.cfg.incoming && !self.established_seen {
+        let pre = |st: &str| st == "syn-received" || st == "syn-ack-sent";
+        if w.cfg.incoming && pre(state_before) {
+            // timer-driven (or spawn) steps: these are the SYN-ACK and its repeats
+            let timer_step = act.is_none() || matches!(act, Some(Act::Tick) | Some(Act::Wait(_)));
             for e in &rec.emitted {
-                let is_synack = e.hdr.ptype == 2 && e.hdr.ack == w.cfg.peer_isn && e.hdr.seq == w.cfg.our_isn;
-                if is_synack {
+                let synack_shaped = e.hdr.ptype == 2 && e.hdr.ack == w.cfg.peer_isn && e.hdr.seq == w.cfg.our_isn;
+                let dying = state_after == "gone" && (e.hdr.ptype == 1);
+                if !synack_shaped && !dying && !self.established_seen && rec.peer_sent.is_empty() && timer_step && !w.shutdown_called && w.reader.is_some() && w.writer.is_some() && self.fin_seq.is_none() {
+                    v.push(f(
+                        "C17",
+                        "handshake",
+                        "synack/emission-before-handshake-is-not-the-syn-ack",
+                        format!("before the initiator's first packet arrived the accepted connection emitted {} seq={} ack={} (expected ST_STATE seq={} acknowledging the SYN's sequence number {})", crate::duo::debug::type_name(e.hdr.ptype), e.hdr.seq, e.hdr.ack, w.cfg.our_isn, w.cfg.peer_isn),
+                    ));
+                }
+                if synack_shaped && timer_step && rec.peer_sent.is_empty() && self.initiator_pkt_seen {
+                    v.push(f("C17", "handshake", "synack/repeated-after-initiator-packet", format!("SYN-ACK repeated at {} us although a packet acknowledging it had arrived", e.t_us)));
+                }
+                if synack_shaped && timer_step && rec.peer_sent.is_empty() {
                     if let Some(last) = self.synack_times.last() {
                         if e.t_us != *last + 200_000 {
                             v.push(f("C17", "handshake", "synack/not-on-the-200ms-timer", format!("SYN-ACK repeated at {} us, previous one at {} us", e.t_us, last)));
@@ -988,27 +1005,23 @@ impl Monitors {
                     if self.synack_times.len() > w.cfg.max_retx {
                         v.push(f("C17", "handshake", "synack/repeated-beyond-the-cap", format!("SYN-ACK sent {} times, configured maximum {}", self.synack_times.len(), w.cfg.max_retx)));
                     }
-                } else if e.hdr.ptype != 1 || state_after != "gone" {
-                    if self.synack_times.is_empty() {
-                        v.push(f(
-                            "C17",
-                            "handshake",
-                            "synack/first-emission-is-not-the-syn-ack",
-                            format!("an accepted connection's first emission is {} seq={} ack={} (expected ST_STATE acknowledging the SYN's sequence number {})", crate::duo::debug::type_name(e.hdr.ptype), e.hdr.seq, e.hdr.ack, w.cfg.peer_isn),
-                        ));
-                    }
                 }
             }
-            if state_after != "syn-ack-sent" && state_after != "syn-received" {
-                self.established_seen = true;
+            // the cap: once max SYN-ACKs are out, the next expiry of the timer must fail the connection
+            if timer_step && act.is_some() && self.synack_times.len() >= w.cfg.max_retx && rec.emitted.is_empty() && pre(state_after) && rec.clock_advanced_us >= 200_000 {
+                v.push(f("C17", "handshake", "synack/connection-does-not-fail-after-the-cap", format!("{} SYN-ACKs are out and the resend timer expired again, but the connection neither repeated it nor failed", self.synack_times.len())));
             }
-        } else if w.cfg.incoming {
-            // stops as soon as a packet acknowledging it arrived
-            for e in &rec.emitted {
-                if e.hdr.ptype == 2 && e.hdr.ack == w.cfg.peer_isn && e.hdr.seq == w.cfg.our_isn && !self.first_data_ever && w.peer_sent.is_empty() && !self.synack_times.is_empty() && state_before == "established" && rec.peer_sent.is_empty() && matches!(act, Some(Act::Tick)) {
-                    v.push(f("C17", "handshake", "synack/repeated-after-handshake-completed", format!("SYN-ACK repeated at {} us although the initiator's packet had arrived", e.t_us)));
-                }
+        }
+        for (h, _, _) in &rec.peer_sent {
+            if w.cfg.incoming && (h.ptype == 0 || h.ptype == 2) && h.ack == w.cfg.our_isn.wrapping_sub(1) {
+                self.initiator_pkt_seen = true;
             }
+        }
+        if w.cfg.incoming && !pre(state_after) && !rec.peer_sent.is_empty() {
+            self.established_seen = true;
+        }
+        if w.cfg.incoming && state_after == "established" {
+            self.established_seen = true;
         }
         if rec.emitted.iter().any(|e| e.hdr.ptype == 0) {
             self.first_data_ever = true;
@@ -1048,6 +1061,21 @@ impl Monitors {
         for (h, _, _) in &rec.peer_sent {
             if h.ptype == 1 && !matches!(act, Some(Act::Deliver2(..))) {
                 let in_seq = matches!(w.peer_fin_idx, Some(fi) if fi == w.peer_in_order());
+                let ahead = matches!(w.peer_fin_idx, Some(fi) if fi > w.peer_in_order());
+                if ahead && state_before != "gone" {
+                    // a FIN ahead of missing data must not take effect
+                    let acked = rec.emitted.iter().any(|e| sdist(e.hdr.ack, h.seq) >= 0);
+                    let closed_ok = matches!(rec.d_result, Some(Ok(())));
+                    let eof = rec.app.iter().any(|(who, r)| *who == "read" && matches!(r, AppRes::Eof));
+                    if acked || closed_ok || eof {
+                        v.push(f(
+                            "C17",
+                            "teardown",
+                            "fin/out-of-sequence-fin-honoured",
+                            format!("the peer's ST_FIN (seq {}) arrived ahead of missing data in state {}; it was {}", h.seq, state_before, if acked { "acknowledged" } else if closed_ok { "taken as the end of the connection" } else { "delivered to the reader as end-of-stream" }),
+                        ));
+                    }
+                }
                 let receiving = state_before == "established" || state_before == "fin-wait-1" || state_before == "fin-wait-2";
                 if in_seq && receiving && w.done.is_none() || (in_seq && receiving && matches!(rec.d_result, Some(Ok(())))) {
                     let acked = rec.emitted.iter().any(|e| e.hdr.ack == h.seq);
